@@ -7,92 +7,18 @@
 
   `map_local` hands the closure a *local* date that may lie one day outside the range
   (`NaiveDate::BEFORE_MIN` / `AFTER_MAX`), so the date-level field replacements are needed on such
-  dates too.  They are modelled here in namespace `ZF` (the functions of `impl Datelike for
-  NaiveDate`, `NaiveDate::{with_mdf, diff_months, checked_add_months, checked_sub_months}`,
-  one-for-one); the month-stepping property itself belongs to C08.
+  dates too.  They are the functions of Model/DateOps.lean (`impl Datelike for NaiveDate`,
+  `NaiveDate::{with_mdf, diff_months, checked_add_months, checked_sub_months}`, C08's model) and of
+  Model/DateArith.lean (`checked_add_days`, `checked_sub_days`, C03's model), which are total
+  functions of the packed word; C08 / C03 prove them on dates of the range, Proofs/ZonedDateL.lean
+  extends those proofs to the two headroom years, and the `zn.*` correspondence exercises them on
+  headroom dates.
   `u32` arguments are `Nat`, `i32` arguments `Int`.
 -/
 import Chrono.Model.DateTime
+import Chrono.Model.DateOps
 namespace Chrono.M
 open Chrono.Extracted
-
-/-! ### `impl Datelike for NaiveDate`: field replacement, and month stepping -/
-namespace ZF
-
-/-- `with_mdf`: debug-asserts equal year flags, table lookup of the ordinal, replaces the ordinal
-bits `(yof & !ORDINAL_MASK) | (ordinal << 4)` -/
-def with_mdf (d : Date) (mdf : Nat) : Res (Option Date) :=
-  if d.year_flags ≠ Mdf.year_flags mdf then .panic
-  else
-    (Mdf.ordinal mdf).bind fun r =>
-    match r with
-    | none => .ok none
-    | some o => (Date.from_yof (d.yof - d.ordinal * 16 + (o : Int) * 16)).bind fun x => .ok (some x)
-
-/-- `with_year(year: i32)`: keep month and day, flags of the new year, `from_mdf` -/
-def with_year (d : Date) (year : Int) : Res (Option Date) :=
-  d.mdf.bind fun mdf => Date.from_mdf year (Mdf.with_flags mdf (YearFlags.from_year year))
-
-def with_month (d : Date) (month : Nat) : Res (Option Date) :=
-  d.mdf.bind fun mdf =>
-  match Mdf.with_month mdf month with
-  | none => .ok none
-  | some m => with_mdf d m
-
-/-- `month0.checked_add(1)?` in `u32` -/
-def with_month0 (d : Date) (month0 : Nat) : Res (Option Date) :=
-  if (month0 : Int) + 1 > U32_MAX then .ok none else with_month d (month0 + 1)
-
-def with_day (d : Date) (day : Nat) : Res (Option Date) :=
-  d.mdf.bind fun mdf =>
-  match Mdf.with_day mdf day with
-  | none => .ok none
-  | some m => with_mdf d m
-
-def with_day0 (d : Date) (day0 : Nat) : Res (Option Date) :=
-  if (day0 : Int) + 1 > U32_MAX then .ok none else with_day d (day0 + 1)
-
-/-- `with_ordinal`: range guard, replace the ordinal bits, `yof & OL_MASK <= MAX_OL` -/
-def with_ordinal (d : Date) (ordinal : Nat) : Res (Option Date) :=
-  if ordinal = 0 ∨ ordinal > 366 then .ok none
-  else
-    let yof : Int := d.yof - d.ordinal * 16 + (ordinal : Int) * 16
-    if (yof / 8) % 1024 * 8 ≤ DATE_MAX_OL then (Date.from_yof yof).bind fun x => .ok (some x)
-    else .ok none
-
-def with_ordinal0 (d : Date) (ordinal0 : Nat) : Res (Option Date) :=
-  if (ordinal0 : Int) + 1 > U32_MAX then .ok none else with_ordinal d (ordinal0 + 1)
-
-/-- `diff_months(months: i32)`: `(year·12 + month − 1).checked_add(months)`, Euclidean split, the day
-clamped to the length of the target month -/
-def diff_months (d : Date) (months : Int) : Res (Option Date) :=
-  d.month.bind fun m => d.day.bind fun day =>
-  (ckI32 (d.year * 12)).bind fun a => (ckI32 (a + m)).bind fun b => (ckI32 (b - 1)).bind fun c =>
-  match optI32 (c + months) with
-  | none => .ok none
-  | some t =>
-    let year := t / 12
-    let month := (t % 12).toNat + 1
-    let flags := YearFlags.from_year year
-    let feb_days := if YearFlags.ndays flags = 366 then 29 else 28
-    let day_max : Nat :=
-      match month with
-      | 2 => feb_days
-      | 4 => 30 | 6 => 30 | 9 => 30 | 11 => 30
-      | _ => 31
-    Date.from_ymd_opt year month (if day > day_max then day_max else day)
-
-/-- `checked_add_months(Months(n: u32))` -/
-def checked_add_months (d : Date) (n : Nat) : Res (Option Date) :=
-  if n = 0 then .ok (some d)
-  else if (n : Int) ≤ I32_MAX then diff_months d n else .ok none
-
-/-- `checked_sub_months`: `diff_months(-(n as i32))` -/
-def checked_sub_months (d : Date) (n : Nat) : Res (Option Date) :=
-  if n = 0 then .ok (some d)
-  else if (n : Int) ≤ I32_MAX then diff_months d (-(n : Int)) else .ok none
-
-end ZF
 
 /-! ### `impl Datelike / Timelike for NaiveDateTime`: replace in the date or in the time part -/
 namespace NaiveDT
@@ -101,21 +27,21 @@ def mapDate (dt : NaiveDT) (r : Res (Option Date)) : Res (Option NaiveDT) :=
 def mapTime (dt : NaiveDT) (o : Option Time) : Res (Option NaiveDT) :=
   .ok (o.map fun t => ⟨dt.date, t⟩)
 
-def with_year (dt : NaiveDT) (y : Int) := mapDate dt (ZF.with_year dt.date y)
-def with_month (dt : NaiveDT) (m : Nat) := mapDate dt (ZF.with_month dt.date m)
-def with_month0 (dt : NaiveDT) (m : Nat) := mapDate dt (ZF.with_month0 dt.date m)
-def with_day (dt : NaiveDT) (d : Nat) := mapDate dt (ZF.with_day dt.date d)
-def with_day0 (dt : NaiveDT) (d : Nat) := mapDate dt (ZF.with_day0 dt.date d)
-def with_ordinal (dt : NaiveDT) (o : Nat) := mapDate dt (ZF.with_ordinal dt.date o)
-def with_ordinal0 (dt : NaiveDT) (o : Nat) := mapDate dt (ZF.with_ordinal0 dt.date o)
+def with_year (dt : NaiveDT) (y : Int) := mapDate dt (Date.with_year dt.date y)
+def with_month (dt : NaiveDT) (m : Nat) := mapDate dt (Date.with_month dt.date m)
+def with_month0 (dt : NaiveDT) (m : Nat) := mapDate dt (Date.with_month0 dt.date m)
+def with_day (dt : NaiveDT) (d : Nat) := mapDate dt (Date.with_day dt.date d)
+def with_day0 (dt : NaiveDT) (d : Nat) := mapDate dt (Date.with_day0 dt.date d)
+def with_ordinal (dt : NaiveDT) (o : Nat) := mapDate dt (Date.with_ordinal dt.date o)
+def with_ordinal0 (dt : NaiveDT) (o : Nat) := mapDate dt (Date.with_ordinal0 dt.date o)
 def with_hour (dt : NaiveDT) (h : Int) := mapTime dt (dt.time.with_hour h)
 def with_minute (dt : NaiveDT) (m : Int) := mapTime dt (dt.time.with_minute m)
 def with_second (dt : NaiveDT) (s : Int) := mapTime dt (dt.time.with_second s)
 def with_nanosecond (dt : NaiveDT) (n : Int) := mapTime dt (dt.time.with_nanosecond n)
 def zchecked_add_days (dt : NaiveDT) (n : Int) := mapDate dt (Date.checked_add_days dt.date n)
 def zchecked_sub_days (dt : NaiveDT) (n : Int) := mapDate dt (Date.checked_sub_days dt.date n)
-def checked_add_months (dt : NaiveDT) (n : Nat) := mapDate dt (ZF.checked_add_months dt.date n)
-def checked_sub_months (dt : NaiveDT) (n : Nat) := mapDate dt (ZF.checked_sub_months dt.date n)
+def checked_add_months (dt : NaiveDT) (n : Nat) := mapDate dt (Date.checked_add_months dt.date n)
+def checked_sub_months (dt : NaiveDT) (n : Nat) := mapDate dt (Date.checked_sub_months dt.date n)
 /-- derived `Hash`: `write_i32(yof)`, `write_u32(secs)`, `write_u32(frac)` -/
 def hashWords (dt : NaiveDT) : List Int := [dt.date.yof, dt.time.secs, dt.time.frac]
 end NaiveDT
